@@ -87,7 +87,14 @@ struct Scn {
     payload: PayloadSpec,
     sweep: Option<Sweep>,
     faults: Vec<Delivery>,
+    /// exhaustive sweep of one stored CRC word: all 2^24 values with this top byte are written
+    /// into the header CRC word (`payload_word` false) or the payload CRC word of the chunk;
+    /// every value but the specified one must be rejected - whatever recipe produced it
+    #[serde(default)]
+    crc_sweep: Option<(bool, u8)>,
 }
+
+const N_CRC_SWEEP_QUICK: u64 = 32;
 
 fn default_mode() -> String {
     "release".into()
@@ -439,8 +446,8 @@ impl Check for C03Check {
     fn count(&self, tier: Tier) -> u64 {
         match tier {
             // every scenario exists for both build modes (index parity)
-            Tier::Quick => 2 * (64 + SPECIAL.len() as u64 + 160),
-            Tier::Thorough => 2 * (64 + SPECIAL.len() as u64 + 6000 + 2 * 64 + 2),
+            Tier::Quick => 2 * (64 + SPECIAL.len() as u64 + 160 + N_CRC_SWEEP_QUICK),
+            Tier::Thorough => 2 * (64 + SPECIAL.len() as u64 + 6000 + 2 * 64 + 2 + 512),
         }
     }
     fn dual_mode(&self) -> bool {
@@ -457,6 +464,35 @@ impl Check for C03Check {
         let n_small = 64u64;
         let n_special = SPECIAL.len() as u64;
         let n_random = if tier == Tier::Quick { 160 } else { 6000 };
+        {
+            // the last block of scenarios: exhaustive sweeps of a stored CRC word
+            let base = match tier {
+                Tier::Quick => n_small + n_special + n_random,
+                Tier::Thorough => n_small + n_special + n_random + 2 * 64 + 2,
+            };
+            if index >= base {
+                let k = index - base;
+                // thorough: all 256 top bytes of both words (2 x 2^32 values); quick: every 16th top byte
+                let (payload_word, top) = match tier {
+                    Tier::Quick => (k % 2 == 0, ((k / 2) * 16 + 5) as u8),
+                    Tier::Thorough => (k % 2 == 0, (k / 2) as u8),
+                };
+                let scn = Scn {
+                    mode: mode.into(),
+                    device_id: b[0].device_id,
+                    packet_seq: 0x0102_0304,
+                    channel_seq: 7,
+                    chip: 2,
+                    flags: (k % 2) as u8,
+                    chunk_id: 3,
+                    payload: PayloadSpec { len: if payload_word { 5 } else { 1 }, fill: "random".into(), seed: 99 },
+                    sweep: None,
+                    faults: vec![],
+                    crc_sweep: Some((payload_word, top)),
+                };
+                return serde_json::to_value(scn).unwrap();
+            }
+        }
         let mut parts = 1usize;
         let mut part = 0usize;
         let mut exhaustive28 = false;
@@ -495,6 +531,7 @@ impl Check for C03Check {
             *r.pick(&["random", "random", "random", "zero", "ff"])
         };
         let scn = Scn {
+            crc_sweep: None,
             mode: mode.into(),
             device_id: r.pick(b).device_id,
             packet_seq: field32(&mut r),
@@ -550,6 +587,50 @@ impl Check for C03Check {
         let nbits = base.len() * 8;
         let mut log = H64::new();
         log.bytes(&base);
+        if let Some((payload_word, top)) = scn.crc_sweep {
+            // exhaustive: every value with this top byte in one stored CRC word. No recipe for an
+            // "alternative" checksum - other range, other seed, other polynomial, a debugging
+            // constant - survives all 2^32 values (thorough tier; the quick tier visits every 16th
+            // top byte).
+            let at = if payload_word { base.len() - 4 } else { 16 };
+            let correct = u32::from_le_bytes(base[at..at + 4].try_into().unwrap());
+            let mut buf = base.clone();
+            let mut accepted_wrong: Vec<u32> = Vec::new();
+            let mut accepted_right = false;
+            let lo = (top as u32) << 24;
+            let res = catch(|| {
+                for low in 0..(1u32 << 24) {
+                    let v = lo | low;
+                    buf[at..at + 4].copy_from_slice(&v.to_le_bytes());
+                    if Chunk::try_from(&buf[..]).is_ok() {
+                        if v == correct {
+                            accepted_right = true;
+                        } else if accepted_wrong.len() < 4 {
+                            accepted_wrong.push(v);
+                        }
+                    }
+                }
+            });
+            stats.executions += 1 << 24;
+            stats.fault(if payload_word { "payload_crc_word_all_values_of_a_top_byte" } else { "header_crc_word_all_values_of_a_top_byte" });
+            log.u64(top as u64).u64(payload_word as u64).u64(accepted_wrong.len() as u64);
+            let mut viol = Vec::new();
+            if let Err(p) = res {
+                viol.push(Violation { invariant: "C03.no-panic".into(), signature: format!("panic:{}:crc-sweep", panic_site(&p)), detail: p, narrowed: None });
+            }
+            if !accepted_wrong.is_empty() {
+                viol.push(Violation {
+                    invariant: "C03.I2-corruption-accepted".into(),
+                    signature: format!("accepted:crc-word-sweep:{}", if payload_word { "payload" } else { "header" }),
+                    detail: format!("chunk accepted with {} CRC word(s) {:08x?} although the specified value is {correct:08x}", if payload_word { "payload" } else { "header" }, accepted_wrong),
+                    narrowed: None,
+                });
+            }
+            if (correct >> 24) as u8 == top && !accepted_right {
+                viol.push(Violation { invariant: "C03.I1-wellformed-rejected".into(), signature: "rejected:crc-sweep".into(), detail: "the chunk with the specified CRC word was rejected".into(), narrowed: None });
+            }
+            return Outcome { log_hash: log.finish(), nontrivial: true, violations: viol };
+        }
         let mut cx = Ctx { scn: &scn, base: &base, stats, log, viol: vec![], accepted_faulty: 0, deliveries: 0 };
         // I1: fault-free delivery
         cx.deliver(&base, None, false, "fault-free");
